@@ -379,6 +379,9 @@ def main(argv=None):
     ap.add_argument("--no-evidence", action="store_true")
     ap.add_argument("--shrink-budget", type=int, default=250)
     ap.add_argument("--start", type=int, default=0, help="first run index")
+    ap.add_argument("--refresh-known", metavar="KEY",
+                    help="maintenance: treat this known finding as unlisted for this run, so that it is minimised "
+                         "and a fresh replay file is written (the run then exits 1 by construction)")
     a = ap.parse_args(argv)
     if a.tier not in ("quick", "thorough"):
         a.tier = "quick"
@@ -495,6 +498,8 @@ def main(argv=None):
 
     # ---- violations: group, minimise, replay-verify, classify ---------------
     known = load_known(prop)
+    if a.refresh_known:
+        known.pop(a.refresh_known, None)
     groups = collections.OrderedDict()
     viols.sort(key=lambda rv: rv[0]["idx"])
     for r, v in viols:
